@@ -64,3 +64,85 @@ package pipeline
 //@   assigns everything
 //@   ensures [reject] !old(accept(c.Matrix, mp)) ==> err != nil && unchanged()
 //@   ensures [accept] old(accept(c.Matrix, mp)) && old(len(mp)) == 0 ==> err == nil && unchanged()
+
+// ---- C15: step kinds are chosen by the documented rule table ----
+
+//@ ginv step_errors: ErrStepTypeInference != nil && ErrUnknownStepType != nil && ErrStepTypeInference != ErrUnknownStepType
+
+//@ define isCommandType(s) := s == "command" || s == "script"
+//@ define isWaitType(s) := s == "wait" || s == "waiter"
+//@ define isInputType(s) := s == "block" || s == "input" || s == "manual"
+//@ define knownType(s) := isCommandType(s) || isWaitType(s) || isInputType(s) || s == "trigger" || s == "group"
+
+//@ func stepByType
+//@   assigns nothing
+//@   ensures [command] isCommandType(sType) ==> err == nil && typeis(ret, *CommandStep) && unbox(ret, *CommandStep) != nil && fresh(unbox(ret, *CommandStep))
+//@   ensures [wait]    isWaitType(sType) ==> err == nil && typeis(ret, *WaitStep) && unbox(ret, *WaitStep) != nil && fresh(unbox(ret, *WaitStep))
+//@   ensures [input]   isInputType(sType) ==> err == nil && typeis(ret, *InputStep) && unbox(ret, *InputStep) != nil && fresh(unbox(ret, *InputStep))
+//@   ensures [trigger] sType == "trigger" ==> err == nil && typeis(ret, *TriggerStep) && unbox(ret, *TriggerStep) != nil && fresh(unbox(ret, *TriggerStep))
+//@   ensures [group]   sType == "group" ==> err == nil && typeis(ret, *GroupStep) && unbox(ret, *GroupStep) != nil && fresh(unbox(ret, *GroupStep))
+//@   ensures [unknown] !knownType(sType) ==> ret == nil && err != nil && wrapsErr(err, ErrUnknownStepType)
+
+//@ define hk(o, k) := o != nil && has(o.index, k)
+//@ define famCommand(o) := hk(o, "command") || hk(o, "commands") || hk(o, "plugins")
+//@ define famWait(o) := hk(o, "wait") || hk(o, "waiter")
+//@ define famInput(o) := hk(o, "block") || hk(o, "input") || hk(o, "manual")
+
+//@ func stepByKeyInference
+//@   assigns nothing
+//@   ensures [command] famCommand(o) ==> err == nil && typeis(ret, *CommandStep) && unbox(ret, *CommandStep) != nil && fresh(unbox(ret, *CommandStep))
+//@   ensures [wait]    !famCommand(o) && famWait(o) ==> err == nil && typeis(ret, *WaitStep) && unbox(ret, *WaitStep) != nil && fresh(unbox(ret, *WaitStep))
+//@   ensures [input]   !famCommand(o) && !famWait(o) && famInput(o) ==> err == nil && typeis(ret, *InputStep) && unbox(ret, *InputStep) != nil && fresh(unbox(ret, *InputStep))
+//@   ensures [trigger] !famCommand(o) && !famWait(o) && !famInput(o) && hk(o, "trigger") ==> err == nil && typeis(ret, *TriggerStep) && unbox(ret, *TriggerStep) != nil && fresh(unbox(ret, *TriggerStep))
+//@   ensures [group]   !famCommand(o) && !famWait(o) && !famInput(o) && !hk(o, "trigger") && hk(o, "group") ==> err == nil && typeis(ret, *GroupStep) && unbox(ret, *GroupStep) != nil && fresh(unbox(ret, *GroupStep))
+//@   ensures [none]    !famCommand(o) && !famWait(o) && !famInput(o) && !hk(o, "trigger") && !hk(o, "group") ==>
+//@       ret == nil && err != nil && wrapsErr(err, ErrStepTypeInference)
+
+//@ func NewScalarStep
+//@   assigns nothing
+//@   ensures [wait]  isWaitType(s) ==> err == nil && typeis(ret, *WaitStep) && unbox(ret, *WaitStep) != nil && fresh(unbox(ret, *WaitStep)) &&
+//@       unbox(ret, *WaitStep).Scalar == s && unbox(ret, *WaitStep).Contents == nil
+//@   ensures [input] isInputType(s) ==> err == nil && typeis(ret, *InputStep) && unbox(ret, *InputStep) != nil && fresh(unbox(ret, *InputStep)) &&
+//@       unbox(ret, *InputStep).Scalar == s && unbox(ret, *InputStep).Contents == nil
+//@   ensures [unknown] !isWaitType(s) && !isInputType(s) ==>
+//@       typeis(ret, *UnknownStep) && unbox(ret, *UnknownStep) != nil && fresh(unbox(ret, *UnknownStep)) &&
+//@       unbox(ret, *UnknownStep).Contents == box(string, s) &&
+//@       typeis(err, *warning.Warning) && unbox(err, *warning.Warning) != nil &&
+//@       len(unbox(err, *warning.Warning).errs) == 1 && wrapsErr(unbox(err, *warning.Warning).errs[0], ErrUnknownStepType)
+
+//@ define typeVal(o) := o.items[o.index["type"]].Value
+//@ define reports(e, s) := e != nil && (wrapsErr(e, s) ||
+//@     (typeis(e, *warning.Warning) && unbox(e, *warning.Warning) != nil &&
+//@      len(unbox(e, *warning.Warning).errs) > 0 && wrapsErr(unbox(e, *warning.Warning).errs[0], s)))
+//@ define usable(e) := e == nil || typeis(e, *warning.Warning)
+
+//@ func stepFromMap
+//@   requires o != nil && ordered.wf(o)
+//@   assigns everything
+//@   ensures [nonstring] old(hk(o, "type") && !typeis(typeVal(o), string)) ==> ret == nil && err != nil && !typeis(err, *warning.Warning)
+//@   ensures [t-command] old(hk(o, "type") && typeis(typeVal(o), string) && isCommandType(unbox(typeVal(o), string))) ==> usable(err) && (typeis(ret, *CommandStep) || typeis(ret, *UnknownStep))
+//@   ensures [t-wait]    old(hk(o, "type") && typeis(typeVal(o), string) && isWaitType(unbox(typeVal(o), string))) ==> usable(err) && (typeis(ret, *WaitStep) || typeis(ret, *UnknownStep))
+//@   ensures [t-input]   old(hk(o, "type") && typeis(typeVal(o), string) && isInputType(unbox(typeVal(o), string))) ==> usable(err) && (typeis(ret, *InputStep) || typeis(ret, *UnknownStep))
+//@   ensures [t-trigger] old(hk(o, "type") && typeis(typeVal(o), string) && unbox(typeVal(o), string) == "trigger") ==> usable(err) && (typeis(ret, *TriggerStep) || typeis(ret, *UnknownStep))
+//@   ensures [t-group]   old(hk(o, "type") && typeis(typeVal(o), string) && unbox(typeVal(o), string) == "group") ==> usable(err) && (typeis(ret, *GroupStep) || typeis(ret, *UnknownStep))
+//@   ensures [t-unknown] old(hk(o, "type") && typeis(typeVal(o), string) && !knownType(unbox(typeVal(o), string))) ==>
+//@       typeis(ret, *UnknownStep) && typeis(err, *warning.Warning) && reports(err, ErrUnknownStepType)
+//@   ensures [k-command] old(!hk(o, "type") && famCommand(o)) ==> usable(err) && (typeis(ret, *CommandStep) || typeis(ret, *UnknownStep))
+//@   ensures [k-wait]    old(!hk(o, "type") && !famCommand(o) && famWait(o)) ==> usable(err) && (typeis(ret, *WaitStep) || typeis(ret, *UnknownStep))
+//@   ensures [k-input]   old(!hk(o, "type") && !famCommand(o) && !famWait(o) && famInput(o)) ==> usable(err) && (typeis(ret, *InputStep) || typeis(ret, *UnknownStep))
+//@   ensures [k-trigger] old(!hk(o, "type") && !famCommand(o) && !famWait(o) && !famInput(o) && hk(o, "trigger")) ==> usable(err) && (typeis(ret, *TriggerStep) || typeis(ret, *UnknownStep))
+//@   ensures [k-group]   old(!hk(o, "type") && !famCommand(o) && !famWait(o) && !famInput(o) && !hk(o, "trigger") && hk(o, "group")) ==> usable(err) && (typeis(ret, *GroupStep) || typeis(ret, *UnknownStep))
+//@   ensures [k-none]    old(!hk(o, "type") && !famCommand(o) && !famWait(o) && !famInput(o) && !hk(o, "trigger") && !hk(o, "group")) ==>
+//@       typeis(ret, *UnknownStep) && typeis(err, *warning.Warning) && reports(err, ErrStepTypeInference)
+//@   ensures [nonnil]  usable(err) ==> ret != nil
+//@   ensures [fallback-warned] typeis(ret, *UnknownStep) ==> err != nil
+
+//@ func unmarshalStep
+//@   requires typeis(o, *ordered.Map[string,any]) ==> unbox(o, *ordered.Map[string,any]) != nil && ordered.wf(unbox(o, *ordered.Map[string,any]))
+//@   assigns everything
+//@   ensures [nonnil] usable(err) ==> ret != nil
+//@   ensures [scalar-wait]  typeis(o, string) && isWaitType(unbox(o, string)) ==> err == nil && typeis(ret, *WaitStep)
+//@   ensures [scalar-input] typeis(o, string) && isInputType(unbox(o, string)) ==> err == nil && typeis(ret, *InputStep)
+//@   ensures [scalar-other] typeis(o, string) && !isWaitType(unbox(o, string)) && !isInputType(unbox(o, string)) ==>
+//@       typeis(ret, *UnknownStep) && typeis(err, *warning.Warning)
+//@   ensures [other] !typeis(o, string) && !typeis(o, *ordered.Map[string,any]) ==> ret == nil && err != nil && !typeis(err, *warning.Warning)
